@@ -643,7 +643,7 @@ def run(chk, drv):
     chk.extra["assumptions"] = ["member names are identifiers that are not attributes of int / betterproto.Enum (getattr op)",
                                 "names of a definition are pairwise distinct (they are keys of the class namespace dict)"]
     quick = chk.tier == "quick"
-    cs = cases(chk, 500 if quick else 5000)
+    cs = cases(chk, 500 if quick else 1500)
     for i, case in enumerate(cs):
         d = case["def"]
         nums = {v for _, v in d}
